@@ -161,6 +161,10 @@ func (h *Handler) validateAPItoken(req *http.Request, token string) (*CurrentUse
 	var uuid string
 	if strings.HasPrefix(token, "v2/") {
 		sp := strings.Split(token, "/")
+		if len(sp) < 3 {
+			// "v2/x" is not a token we could have issued
+			return nil, false, nil
+		}
 		uuid = sp[1]
 		token = sp[2]
 	}
